@@ -107,6 +107,20 @@ def spec_Q(d, T, q):
     return Q
 
 
+# A singular PSD covariance is inside the property's quantifier, but the defect below lives in floating point (the
+# real-arithmetic model has D >= 0): reported as a candidate finding in the evidence and to the coordinator; set to
+# True once /repo clamps the pivots (or a `known:` entry with key linear-sqrt-singular-R exists).
+SINGULAR_R_IS_VIOLATION = False
+CANDIDATES = {}
+
+
+def is_singular(C):
+    try:
+        return vlib.minv_frac(fmat(C)) is None
+    except (ValueError, OverflowError):
+        return False
+
+
 def _solve_factor(Y0, Z0):
     Zi = vlib.minv_frac(Z0)
     if Zi is None:
@@ -297,12 +311,14 @@ def cmp_fq(c, stats):
 
 # ------------------------------------------------------------------ noise samples (WNA and linear sensor)
 
-COUNT_SEQS = [[0], [1], [2], [3], [4], [0, 1], [1, 0, 2], [2, 3], [4, 4], [3, 1, 0, 2], [1, 1, 1, 1]]
+COUNT_SEQS = [[0], [1], [2], [3], [4], [0, 1], [1, 0, 2], [2, 3], [4, 4], [3, 1, 0, 2], [1, 1, 1, 1], [16], [17, 2], [33, 1, 16]]
 
 
 def pick_Tq(r, wide=False):
     if r.random() < 0.3:
         return r.choice([(1.0, 10.0), (0.5, 0.125), (2.0, 3.0), (0.25, 40.0), (8.0, 0.5)])
+    if wide and r.random() < 0.3:     # tiny / huge: an absolute threshold on a pivot or a variance is visible
+        return r.choice([(1e-8, 1e-10), (1e-10, 1.0), (1e10, 1e-10), (1e-6, 1e10), (1e8, 1e8), (3e-9, 2e-9), (1e-4, 1e-12)])
     e = 4 if wide else 1.5
     return 10 ** r.uniform(-e, e), 10 ** r.uniform(-e, e)
 
@@ -350,6 +366,9 @@ def gen_lsamp(ctx, g):
         idx = [r.randrange(n) for _ in range(m)]
         if Rfix is not None:
             Rm = Rfix
+        elif r.random() < 0.15:     # singular covariance (rank deficient, exactly representable): still a covariance
+            B = [[float(r.randint(-2, 2)) for _ in range(max(m - 1, 1))] for _ in range(m)]
+            Rm = vlib.mmul(B, vlib.mT(B)) if m > 1 else [[0.0]]
         elif r.random() < 0.25:     # increasing diagonal: the pivoted LDL^T has a non-trivial permutation
             B = [[r.uniform(-0.3, 0.3) for _ in range(m)] for _ in range(m)]
             Rm = vlib.mmul(B, vlib.mT(B))
@@ -357,6 +376,9 @@ def gen_lsamp(ctx, g):
                 Rm[i][i] += 4.0 ** i
         else:
             Rm = g.spd(m, cond=10 ** r.uniform(0, 3)) if r.random() < 0.7 else g.spd_dyadic(m)
+        if Rfix is None and r.random() < 0.3:   # scale 1e-10 .. 1e+10 (power of four: exact)
+            sc = 4.0 ** r.randint(-17, 17)
+            Rm = [[x * sc for x in row] for row in Rm]
         seed = r.randint(0, 2 ** 31)
         line = "lin_samp %d %d %s %s %d %d %s" % (n, m, " ".join(map(str, idx)), " ".join(cm(Rm)), seed, len(seq), " ".join(map(str, seq)))
         out.append(Case("lin_samp", line, {"n": n, "m": m, "idx": idx, "R": Rm, "seed": seed, "seq": seq}))
@@ -390,7 +412,13 @@ def post_samp(c, stats):
         c.probs.append(("prop", key_dim, "%s: getNoiseSample(%d) returned %dx%d" % (what, n, pr, pc)))
         return
     if not finite(Y0):
-        c.probs.append(("prop", "sqrt-contract", "%s: samples are not finite (no real square root S with S S^T = covariance)" % what))
+        if not wna and is_singular(C) and not SINGULAR_R_IS_VIOLATION:
+            CANDIDATES.setdefault("linear-sqrt-singular-R", {"what": "LinearModel with a singular positive semi-definite R draws NaN noise "
+                                  "(LDL^T pivot rounds to a tiny negative number, cwiseSqrt gives NaN); expected samples of covariance R",
+                                  "input_line": c.line, "count": 0})["count"] += 1
+            return
+        c.probs.append(("prop", "sqrt-contract" if not (not wna and is_singular(C)) else "linear-sqrt-singular-R",
+                        "%s: samples are not finite (no real square root S with S S^T = covariance)" % what))
         return
     S, cond, order = recover_factor(Y0, Z0, C)
     if S is None:
@@ -414,7 +442,7 @@ def post_samp(c, stats):
     repro, differs = rd.tok(), rd.tok()
     if repro != "repro":
         c.probs.append(("prop", "sample-not-reproducible", "%s: two objects with the same seed produced different samples" % what))
-    if differs == "same":
+    if differs == "same" and any(x != 0 for row in C for x in row):
         c.probs.append(("prop", "sample-seed-ignored", "%s: seeds s and s+1 produced identical samples" % what))
     Sd = round_mat(S)
     draws = [Z[i][j] for (cnt, Y, Z) in calls for j in range(cnt) for i in range(n)]
@@ -622,14 +650,22 @@ def make_batch(r, d, T, q, N, style):
     prev = [[r.uniform(-5, 5) for _ in range(N)] for _ in range(n)]
     if style == "mixup":   # columns far apart from one another: prev_0 in place of prev_i is visible
         prev = [[10.0 * (j + 1) * (1 if (i + j) % 2 else -1) + r.uniform(-1, 1) for j in range(N)] for i in range(n)]
+    if style == "neardup":  # consecutive pairs equal, or equal up to 1e-10 / 1e-7 relative: a reused previous result is visible
+        base = [r.uniform(-5, 5) for _ in range(n)]
+        prev = [[base[i] * (1.0 + (0.0 if j % 3 == 0 else (1e-10 if j % 3 == 1 else 1e-7)) * ((j + i) % 5 - 2)) for j in range(N)] for i in range(n)]
     cur = [[0.0] * N for _ in range(n)]
+    zfix = None
     for j in range(N):
-        rad = {"rand": r.uniform(0.2, 3.0), "mixup": r.uniform(0.2, 2.0), "peak": 0.0, "far": r.uniform(4.0, 9.0)}[style]
+        rad = {"rand": r.uniform(0.2, 3.0), "mixup": r.uniform(0.2, 2.0), "peak": 0.0, "far": r.uniform(4.0, 9.0),
+               "neardup": 1.0, "underflow": r.uniform(45.0, 60.0)}[style]
         z = [r.gauss(0, 1) for _ in range(n)]
         nz = math.sqrt(sum(x * x for x in z)) or 1.0
         z = [rad * x / nz for x in z]
+        if style == "neardup":
+            zfix = zfix or z
+            z = zfix
         for i in range(n):
-            cur[i][j] = sum(F[i][k] * prev[k][j] for k in range(n)) + sum(L[i][k] * z[k] for k in range(n))
+            cur[i][j] = sum(F[i][k] * prev[k if style != "neardup" else k][j if style != "neardup" else 0] for k in range(n)) + sum(L[i][k] * z[k] for k in range(n))
     return {"N": N, "prev": prev, "cur": cur, "style": style}
 
 
@@ -646,12 +682,22 @@ def gen_trans(ctx, g):
     out = []
     combos = [(d, plan) for d in (1, 2, 3) for plan in ([(0, "rand")], [(1, "rand")], [(3, "rand")], [(4, "mixup")], [(2, "peak")], [(5, "far")],
                                                          [(5, "mixup"), (2, "rand"), (1, "rand")], [(1, "rand"), (4, "mixup"), (0, "rand"), (3, "far")],
-                                                         [(3, "rand"), (3, "mixup"), (1, "peak")])]
+                                                         [(3, "rand"), (3, "mixup"), (1, "peak")], [(6, "neardup")], [(4, "neardup"), (4, "neardup")],
+                                                         [(16, "rand")], [(17, "mixup"), (2, "rand")], [(32, "rand"), (1, "rand")], [(3, "underflow"), (2, "rand")])]
+    # the same batch twice on one object: both answers must be right (and equal)
+    combos += [(d, [(4, "rand"), "repeat"]) for d in (1, 2, 3)]
     for _ in range(ctx.n(100, 1500)):
         k = r.choice([1, 1, 2, 3, 4])
         combos.append((r.choice([1, 2, 3]), [(r.randint(0 if k > 1 else 1, 5), r.choice(["rand", "mixup", "rand", "far"])) for _ in range(k)]))
-    for d, plan in combos:
+    for ci, (d, plan) in enumerate(combos):
         T, q = pick_Tq(r)
+        if ci % 4 == 3:      # scale: q over twenty orders of magnitude, T over six (only conditioning constrains the answer)
+            T, q = 10 ** r.uniform(-3, 3), 10 ** r.uniform(-10, 10)
+        if plan[-1] == "repeat":
+            b0 = make_batch(r, d, T, q, plan[0][0], plan[0][1])
+            batches = [b0, dict(b0)]
+            out.append(Case("wna_trans", trans_line(d, T, q, batches), {"d": d, "T": T, "q": q, "batches": batches, "style": "repeat"}))
+            continue
         batches = [make_batch(r, d, T, q, N, style) for N, style in plan]
         out.append(Case("wna_trans", trans_line(d, T, q, batches), {"d": d, "T": T, "q": q, "batches": batches,
                                                                     "style": "+".join(st for _, st in plan) if len(plan) == 1 else "sequence"}))
@@ -672,6 +718,17 @@ def spec_logdensity(d, T, q, prev, cur, N):
         quad = sum(dlt[i] * Qi[i][k] * dlt[k] for i in range(n) for k in range(n))
         out.append((quad, -0.5 * (n * math.log(2 * math.pi) + math.log(det) + float(quad))))
     return det, out
+
+
+def trans_tol(T, q, b, j, quad, ld, condQ):
+    """tolerance on the log-density of pair j: conditioning of Q, plus the rounding of the residual cur - F prev
+    (cancellation when the states are large against the noise: an error eps (|cur| + |F||prev|) in the residual moves
+    the quadratic form by 2 sqrt(quad) / sqrt(lambda_min(Q)) times that)"""
+    n = len(b["cur"])
+    big = max([abs(b["cur"][i][j]) for i in range(n)] + [0.0]) + (1.0 + abs(T)) * max([abs(b["prev"][i][j]) for i in range(n)] + [0.0])
+    lam_min = q * T ** 4 / (12.0 * (T ** 3 / 3.0 + T))
+    cancel = 16 * n * EPS * big * (math.sqrt(float(quad)) + 1.0) / math.sqrt(lam_min)
+    return 1e-12 * condQ * (1.0 + float(quad)) + 1e-11 * (1 + abs(ld)) + cancel
 
 
 def post_trans(c, stats):
@@ -702,11 +759,13 @@ def post_trans(c, stats):
             continue
         for j in range(N):
             quad, ld = spec[j]
-            tol = 1e-12 * condQ * (1.0 + float(quad)) + 1e-11 * (1 + abs(ld))
-            if p[j] > 0 and math.isfinite(p[j]):
+            tol = trans_tol(m["T"], m["q"], b, j, quad, ld, condQ)
+            if ld < -700:       # underflow: zero, or the smallest value a clamped vectorised exp returns
+                err = 0.0 if (0.0 <= p[j] <= 1e-290) else float("inf")
+            elif p[j] > 0 and math.isfinite(p[j]):
                 err = abs(math.log(p[j]) - ld)
             else:
-                err = 0.0 if (p[j] == 0 and ld < -700) else float("inf")
+                err = float("inf")
             worst = max(worst, err / tol) if err == err else float("inf")
             if not (err <= tol):
                 c.probs.append(("prop", "wna-transition", "%s: call %d pair %d has density %.17g, N(cur; F prev, Q) = %.17g (log diff %.3g, tol %.3g)"
@@ -741,19 +800,23 @@ def cmp_trans(c, stats):
             return
         for j in range(N):
             quad, ld = spec[j]
-            tol = 1e-12 * c.st["condQ"] * (1.0 + float(quad)) + 1e-11 * (1 + abs(ld))
+            tol = trans_tol(c.meta["T"], c.meta["q"], b, j, quad, ld, c.st["condQ"])
             a, bb = dens[j], p[j]
-            if a > 0:
+            if ld < -700:
+                pass
+            elif a > 0:
                 if abs(math.log(a) - ld) > tol:
                     c.probs.append(("corr", "model-float-density", "the model's Float density differs from the exact evaluation"))
                     return
             elif ld > -700:
                 c.probs.append(("corr", "model-float-density", "the model's Float density underflows where the exact one does not"))
                 return
-            if a > 0 and bb > 0 and math.isfinite(bb):
+            if ld < -700:
+                err = 0.0
+            elif a > 0 and bb > 0 and math.isfinite(bb):
                 err = abs(math.log(a) - math.log(bb))
             else:
-                err = 0.0 if (a == bb or ld < -700) else float("inf")
+                err = 0.0 if a == bb else float("inf")
             if not (err <= 2 * tol):
                 c.probs.append(("corr", "transition", "model density and implementation density differ for pair %d" % j))
                 return
@@ -958,10 +1021,10 @@ def traj_wna(r, L=None):
             "x0": [r.uniform(-5, 5) for _ in range(2 * d)]}
 
 
-def traj_htoks(tr, lin=None, circ=0):
+def traj_htoks(tr, lin=None, circ=0, quat=0):
     if tr["kind"] == "aff":
-        lin = tr["n"] - circ if lin is None else lin
-        return ["aff", str(tr["n"]), str(tr["L"]), str(lin), str(circ)] + cm(tr["A"]) + hx(tr["b"]) + hx(tr["x0"])
+        lin = tr["n"] - circ * (4 if quat else 1) if lin is None else lin
+        return ["aff", str(tr["n"]), str(tr["L"]), str(lin), str(circ), str(quat)] + cm(tr["A"]) + hx(tr["b"]) + hx(tr["x0"])
     return ["wna", str(tr["d"]), hexd(tr["T"]), hexd(tr["q"]), str(tr["seed"]), str(tr["L"])] + hx(tr["x0"])
 
 
@@ -1149,14 +1212,14 @@ def gen_sensor(ctx, g):
     r = g.r
     out = []
 
-    def add(tr, circ, idx, ops, cls):
+    def add(tr, circ, idx, ops, cls, quat=0):
         m = len(idx)
         Rm = g.spd(m, cond=10 ** r.uniform(0, 3)) if r.random() < 0.6 else g.spd_dyadic(m)
         if m > 1 and r.random() < 0.3:     # largest variance last: the pivoted LDL^T permutes
             Rm = [[(4.0 ** i if i == j else 0.25 * (1 + min(i, j))) for j in range(m)] for i in range(m)]
         sseed = r.randint(0, 2 ** 31)
-        toks = ["sensor"] + traj_htoks(tr, circ=circ) + [str(tr["n"]), str(m)] + [str(i) for i in idx] + cm(Rm) + [str(sseed), str(len(ops))] + list(ops)
-        out.append(Case("sensor", " ".join(toks), {"tr": tr, "circ": circ, "idx": list(idx), "R": Rm, "sseed": sseed, "ops": list(ops), "cls": cls}))
+        toks = ["sensor"] + traj_htoks(tr, circ=circ, quat=quat) + [str(tr["n"]), str(m)] + [str(i) for i in idx] + cm(Rm) + [str(sseed), str(len(ops))] + list(ops)
+        out.append(Case("sensor", " ".join(toks), {"tr": tr, "circ": circ, "quat": quat, "idx": list(idx), "R": Rm, "sseed": sseed, "ops": list(ops), "cls": cls}))
 
     for L in range(0, 6):
         tr = traj_aff(r, n=3, L=L)
@@ -1167,6 +1230,16 @@ def gen_sensor(ctx, g):
     # the test-suite configuration: 2-D model, components {0, 2}
     tr = {"kind": "wna", "d": 2, "n": 4, "T": 1.0, "q": 10.0, "seed": 1, "L": 5, "x0": [10.0, 0.0, 10.0, 0.0]}
     add(tr, 0, [0, 2], list("fm" * 6), "shipped-config")
+    # every layout (linear, circular[, quaternion]) of states of size <= 5 x every index list of length <= 2:
+    # same total dimension with another layout must give another measurement description
+    for n in range(1, 6):
+        layouts = [(circ, 0) for circ in range(0, n + 1)] + [(1, 1)] * (n >= 4)
+        for circ, quat in layouts:
+            for ln in (1, 2):
+                for idx in itertools.product(range(n), repeat=ln):
+                    if ln == 2 and n > 3 and (idx[0] + 2 * idx[1] + circ) % 3:
+                        continue
+                    add(traj_aff(r, n=n, L=1), circ, idx, "fm", "layouts", quat)
     for _ in range(ctx.n(400, 5000)):
         tr = traj_aff(r, n=r.randint(1, 4)) if r.random() < 0.6 else traj_wna(r)
         n = tr["n"]
@@ -1181,23 +1254,32 @@ def post_sensor(c, stats):
     m = c.meta
     tr, idx, ops, circ = m["tr"], m["idx"], m["ops"], m["circ"]
     n, mm = tr["n"], len(idx)
-    lin = n - circ
-    what = "SimulatedLinearSensor(%s L=%d, components %s) calls %s" % (tr["kind"], tr["L"], idx, "".join(ops))
+    quat = m.get("quat", 0)
+    lin = n - circ * (4 if quat else 1)
+    what = "SimulatedLinearSensor(%s L=%d, state layout lin=%d circ=%d%s, components %s) calls %s" % (tr["kind"], tr["L"], lin, circ, " quaternion" if quat else "", idx, "".join(ops))
     if not c.hout.startswith("ok"):
         return crash_problem(c, "sensor-crash", what)
     rd = Reader(c.hout)
     rd.expect("ok")
-    idd = (rd.nat(), rd.nat(), rd.nat())
-    mdd = (rd.nat(), rd.nat(), rd.nat())
+    idd = (rd.nat(), rd.nat(), rd.nat(), rd.nat(), rd.nat(), rd.nat())
+    mdd = (rd.nat(), rd.nat(), rd.nat(), rd.nat(), rd.nat())
+    qsame = rd.tok()
     hr, hc, H = rd.shaped()
-    if idd != (lin, circ, mm):
-        c.probs.append(("prop", "sensor-description", "%s: input description %s, expected %s" % (what, idd, (lin, circ, mm))))
-    wantmd = (sum(1 for i in idx if i < lin), sum(1 for i in idx if i >= lin), 0)
+    csize = circ * (4 if quat else 1)
+    wantid = (lin, circ, mm, quat, lin + csize + mm, (lin + 3 * circ + mm) if quat else (lin + csize + mm))
+    if idd != wantid:
+        c.probs.append(("prop", "sensor-description", "%s: input description (lin, circ, noise, quaternion, total, dof) = %s, expected %s" % (what, idd, wantid)))
+    nl = sum(1 for i in idx if i < lin)
+    wantmd = (nl, mm - nl, 0, 0, mm)
+    if mdd != wantmd:
+        c.probs.append(("prop", "sensor-description", "%s: measurement description (lin, circ, noise, quaternion, total) = %s, expected %s" % (what, mdd, wantmd)))
+    if qsame != "q-same":
+        c.probs.append(("prop", "sensor-getter-not-idempotent", "%s: a second query of the descriptions / H differs" % what))
     hd = stats.setdefault("sensor_branch", {})
     hd["row selects linear component"] = hd.get("row selects linear component", 0) + wantmd[0]
     hd["row selects circular component"] = hd.get("row selects circular component", 0) + wantmd[1]
-    if mdd != wantmd:
-        c.probs.append(("prop", "sensor-description", "%s: measurement description %s, expected %s" % (what, mdd, wantmd)))
+    c.st["descr"] = (idd, mdd)
+    c.st["descr_line"] = "sensor_descr %d %d 0 %d %d %d %s %d" % (lin, circ, quat, n, mm, " ".join(map(str, idx)), mm)
     got = []
     for op in ops:
         t = rd.tok()
@@ -1300,13 +1382,13 @@ def post_sensor(c, stats):
             c.notes.append("a refused freeze consumes draws (the model draws nothing on a refusal): not promised by C16")
     c.probs += pa
     D = wa
-    c.st = {"got": got, "xs": xs, "cond": cond, "condR": condR, "SR": SR}
+    c.st = dict(c.st, got=got, xs=xs, cond=cond, condR=condR, SR=SR)
     toks = ["sensor"] + traj_dtoks(tr, S, Z) + [str(mm)] + [str(i) for i in idx] + cm(round_mat(SR)) + [str(len(D))] + hx(D) + [str(len(ops))] + list(ops)
     c.dline = " ".join(toks)
 
 
 def cmp_sensor(c, stats):
-    if not c.st:
+    if not c.st or "got" not in c.st:
         return
     m = c.meta
     tr, ops, mm = m["tr"], m["ops"], len(m["idx"])
@@ -1360,6 +1442,8 @@ def gen_grid(ctx, g):
         for ny in range(2, 7):
             add(areas[(nx * 5 + ny) % len(areas)], nx, ny, 4, nx * ny, "valid")
             add((r.uniform(-50, 0), r.uniform(1, 50), r.uniform(-50, 0), r.uniform(1, 50), 0), nx, ny, 4, nx * ny, "valid")
+    for k, area in enumerate([(1e-10, 3e-10, -2e-10, 7e-10, 0), (-1e10, 3e10, 5e9, 6e9, 0), (0.0, 1e10, 0.0, 1e-10, 1), (2.5, 2.5, -1.0, -1.0, 0), (1e10, 1e10 + 64, -1e-10, 1e-10, 0)]):
+        add(area, 2 + k % 4, 2 + (k * 3) % 5, 4, (2 + k % 4) * (2 + (k * 3) % 5), "scale")
     for nx, ny in ((2, 3), (3, 2), (5, 3), (3, 5), (4, 9), (9, 4), (2, 7), (7, 2), (8, 3)):
         add(areas[(nx + ny) % len(areas)], nx, ny, 4, nx * ny, "non-square")
     for nx, ny in ((2, 2), (2, 5), (3, 4), (6, 2), (4, 4)):
@@ -1395,6 +1479,8 @@ def post_grid(c, stats):
     w = rd.vec(wn)
     if rd.tok() != "again-same":
         c.probs.append(("prop", "grid-stateful", "%s: a second call of the same initialiser on an identical particle set gave another result" % what))
+    if rd.tok() != "copy-same":
+        c.probs.append(("prop", "grid-copy", "%s: a copy of the initialiser (original destroyed) gave another result" % what))
     c.st = {"ok": ok, "st": st, "w": w}
     c.dline = " ".join(["grid"] + c.line.split()[2:])
     if ok != want:
@@ -1454,6 +1540,237 @@ def cmp_grid(c, stats):
         c.probs.append(("corr", "grid", "model and implementation particle sets differ"))
 
 
+# ------------------------------------------------------------------ plumbing, hand-over, aliasing, histories that net to nothing
+
+def gen_plumb(ctx, g):
+    r = g.r
+    out = []
+    for d in (1, 2, 3):
+        for T, q, T2 in ((1.0, 10.0, 2.0), (0.5, 0.125, 0.5), (1e-8, 1e-10, 1e3)) + tuple((10 ** r.uniform(-3, 3), 10 ** r.uniform(-3, 3), 10 ** r.uniform(-3, 3)) for _ in range(ctx.n(2, 40))):
+            out.append(Case("wna_plumb", "wna_plumb %d %s %s %s" % (d, hexd(T), hexd(q), hexd(T2)), {"d": d, "T": T, "q": q, "T2": T2}))
+    return out
+
+
+def fq_matches(d, T, q, F, Q):
+    sF, sQ = spec_F(d, T), spec_Q(d, T, q)
+    n = 2 * d
+    if len(F) != n or len(Q) != n or not (finite(F) and finite(Q)):
+        return False
+    return all(Fraction(F[i][j]) == sF[i][j] and abs(Fraction(Q[i][j]) - sQ[i][j]) <= 16 * EPS * abs(sQ[i][j]) + TINY for i in range(n) for j in range(n))
+
+
+def post_plumb(c, stats):
+    m = c.meta
+    d, T, q, T2 = m["d"], m["T"], m["q"], m["T2"]
+    what = "WhiteNoiseAcceleration(Dim %d, T=%r, q=%r)" % (d, T, q)
+    if not c.hout.startswith("ok"):
+        return crash_problem(c, "wna-plumbing-crash", what)
+    rd = Reader(c.hout)
+    rd.expect("ok")
+    mats = [rd.shaped()[2] for _ in range(4)]
+    sp1, sp2, sst = rd.nat(), rd.nat(), rd.nat()
+    F3, Q3 = rd.shaped()[2], rd.shaped()[2]
+    agent, ltisp, ltisst, ltisame = rd.nat(), rd.nat(), rd.nat(), rd.tok()
+    if not fq_matches(d, T, q, mats[0], mats[1]):
+        c.probs.append(("prop", "wna-Q", "%s: F/Q differ from the closed form" % what))
+    if mats[0] != mats[2] or mats[1] != mats[3]:
+        c.probs.append(("prop", "wna-getter-not-idempotent", "%s: the second query of F/Q differs from the first" % what))
+    # after setSamplingTime(T2): F and Q must be the closed forms of ONE sampling interval (the old or the new one)
+    okold, oknew = fq_matches(d, T, q, F3, Q3), fq_matches(d, T2, q, F3, Q3)
+    if not (okold or oknew):
+        c.probs.append(("prop", "wna-sampling-time-inconsistent", "%s: after setSamplingTime(%r) F and Q are not the closed forms of one sampling interval" % (what, T2)))
+    c.st = {"flags": (sp1, sp2, sst), "unchanged": okold}
+    if agent != 0:
+        c.notes.append("Agent::setProperty default accepts a property (model: refuses every string)")
+    if ltisame != "lti-same":
+        c.notes.append("LTIStateModel::setSamplingTime changes the matrices (model: nothing changes)")
+    c.dline = c.line
+
+
+def cmp_plumb(c, stats):
+    if not c.st:
+        return
+    t = c.dout.split()
+    mflags = (int(t[1]), int(t[2]), int(t[3]))
+    if mflags != c.st["flags"] or (t[4] == "unchanged") != c.st["unchanged"]:
+        # what setProperty / setSamplingTime report and whether the latter re-derives F, Q is not in the property text
+        c.notes.append("setProperty/setSamplingTime plumbing differs from the model (impl flags %s, unchanged=%s; model %s %s): not promised by C16"
+                       % (c.st["flags"], c.st["unchanged"], mflags, t[4]))
+
+
+def gen_move(ctx, g):
+    r = g.r
+    out = []
+    combos = [(d, mode, c1, c2) for d in (1, 2, 3) for mode in (0, 1) for c1, c2 in ((0, 2), (3, 1))]
+    for _ in range(ctx.n(6, 200)):
+        combos.append((r.choice([1, 2, 3]), r.choice([0, 1]), r.randint(0, 4), r.randint(1, 4)))
+    for d, mode, c1, c2 in combos:
+        T, q = pick_Tq(r)
+        d2 = r.choice([1, 2, 3])
+        T2, q2 = pick_Tq(r)
+        seed = r.randint(0, 2 ** 31)
+        out.append(Case("wna_move", "wna_move %d %s %s %d %s %s %d %d %d %d" % (d, hexd(T), hexd(q), d2, hexd(T2), hexd(q2), seed, mode, c1, c2),
+                        {"d": d, "T": T, "q": q, "d2": d2, "T2": T2, "q2": q2, "seed": seed, "mode": mode, "c1": c1, "c2": c2}))
+    return out
+
+
+def post_move(c, stats):
+    m = c.meta
+    d, n = m["d"], 2 * m["d"]
+    what = "WhiteNoiseAcceleration Dim %d %s (source destroyed), used through StateModel*" % (d, "move-constructed" if m["mode"] == 0 else "move-assigned over a Dim %d object" % m["d2"])
+    if not c.hout.startswith("ok"):
+        return crash_problem(c, "wna-move", what)
+    rd = Reader(c.hout)
+    rd.expect("ok")
+    tot = rd.nat()
+    F, Q = rd.shaped()[2], rd.shaped()[2]
+    Y1, Z1 = rd.shaped()[2], rd.shaped()[2]
+    y2r, y2c, Y2 = rd.shaped()
+    Z2 = rd.shaped()[2]
+    rd.expect("P")
+    Y0, Z0 = rd.shaped()[2], rd.shaped()[2]
+    if tot != n or not fq_matches(d, m["T"], m["q"], F, Q):
+        c.probs.append(("prop", "wna-move", "%s: the moved object does not expose the source's F/Q/state size" % what))
+        return
+    S, cond, order = recover_factor(Y0, Z0, spec_Q(d, m["T"], m["q"]))
+    if S is None:
+        return
+    if (y2r, y2c) != (n, m["c2"]):
+        c.probs.append(("prop", "wna-move", "%s: sample of the moved object is %dx%d" % (what, y2r, y2c)))
+        return
+    Z1, Z2 = rearr(Z1, order), rearr(Z2, order)
+    pr = sample_problems(S, cond, Y2, Z2, what + ": samples must continue the source's stream", stats, key="wna-move")
+    c.probs += pr
+    draws = [Z1[i][j] for j in range(m["c1"]) for i in range(n)] + [Z2[i][j] for j in range(m["c2"]) for i in range(n)]
+    c.st = {"S": S, "cond": cond, "Y2": Y2, "Z2": Z2, "F": F, "Q": Q}
+    c.dline = " ".join(["wna_move", str(d), hexd(m["T"]), hexd(m["q"]), str(m["d2"]), hexd(m["T2"]), hexd(m["q2"]), str(m["mode"]), str(m["c1"]), str(m["c2"])]
+                       + cm(round_mat(S)) + [str(len(draws))] + hx(draws))
+
+
+def cmp_move(c, stats):
+    if not c.st:
+        return
+    m = c.meta
+    n = 2 * m["d"]
+    if not c.dout.startswith("ok"):
+        c.probs.append(("corr", "wna-move", "model: %s" % c.dout[:40]))
+        return
+    rd = Reader(c.dout)
+    rd.expect("ok")
+    if rd.nat() != n:
+        c.probs.append(("corr", "wna-move", "model state size differs"))
+        return
+    mF, mQ = rd.mat(n, n, frac), rd.mat(n, n, frac)
+    Y = rd.mat(n, m["c2"], frac)
+    if mF != spec_F(m["d"], m["T"]) or mQ != spec_Q(m["d"], m["T"], m["q"]):
+        c.probs.append(("corr", "model-vs-spec", "moved model object has another F/Q"))
+    S, Z = c.st["S"], c.st["Z2"]
+    for i in range(n):
+        for j in range(m["c2"]):
+            tol = 512 * n * EPS * c.st["cond"] * (rowmag(S, i) * colmax(Z, j) + 1e-300)
+            if abs(float(Fraction(c.st["Y2"][i][j]) - Y[i][j])) > tol:
+                c.probs.append(("corr", "wna-move", "model and implementation samples of the moved object differ"))
+                return
+
+
+def gen_ltimove(ctx, g):
+    return [Case("lti_move", "lti_move %d %d" % (n, mode), {"n": n, "mode": mode}) for n in (1, 2, 4) for mode in (0, 1)]
+
+
+def post_ltimove(c, stats):
+    what = "LTIStateModel %dx%d %s" % (c.meta["n"], c.meta["n"], "move-constructed" if c.meta["mode"] == 0 else "move-assigned")
+    t = c.hout.split()
+    if not t or t[0] != "ok":
+        return crash_problem(c, "lti-move", what)
+    if t[1] != "stored":
+        c.probs.append(("prop", "lti-move", "%s: the target does not hold the source's F and Q" % what))
+    if t[2] != "1" or t[3] != "1":
+        c.notes.append("a moved LTIStateModel drops the attached exogenous model / skip flag (have_exogenous=%s, skipping=%s; the source had both): outside C16's text" % (t[2], t[3]))
+
+
+def cmp_none(c, stats):
+    return
+
+
+def gen_motion_x(ctx, g):
+    r = g.r
+    out = []
+    combos = [(d, mode, exo, N) for d in (1, 2, 3) for mode in ("alias", "toggle") for exo in (0, 1) for N in (1, 3)]
+    for _ in range(ctx.n(10, 300)):
+        combos.append((r.choice([1, 2, 3]), r.choice(["alias", "toggle"]), r.choice([0, 1]), r.choice([1, 2, 5, 16, 17])))
+    for d, mode, exo, N in combos:
+        n = 2 * d
+        T, q = pick_Tq(r)
+        seed = r.randint(0, 2 ** 31)
+        X = g.mat(n, N, -8, 8)
+        toks = ["wna_motion_x", str(d), hexd(T), hexd(q), str(seed), mode, str(exo), str(N)] + cm(X)
+        G = gv = None
+        if exo:
+            G, gv = g.mat(n, n), g.vec(n)
+            toks += cm(G) + hx(gv)
+        out.append(Case("wna_motion_x", " ".join(toks), {"d": d, "T": T, "q": q, "seed": seed, "mode": mode, "exo": exo, "N": N, "X": X, "G": G, "g": gv}))
+    return out
+
+
+def post_motion_x(c, stats):
+    m = c.meta
+    d, N, n = m["d"], m["N"], 2 * m["d"]
+    what = ("motion(X, X) with the same matrix as input and output" if m["mode"] == "alias"
+            else "motion after skip on/off, an unknown property and setSamplingTime(T) (a history that nets to nothing)") + " (Dim %d, %d states)" % (d, N)
+    if not c.hout.startswith("ok"):
+        return crash_problem(c, "wna-motion-crash", what)
+    rd = Reader(c.hout)
+    rd.expect("ok")
+    mr, mc, M = rd.shaped()
+    Z = rd.shaped()[2]
+    rd.expect("P")
+    Y0, Z0 = rd.shaped()[2], rd.shaped()[2]
+    if (mr, mc) != (n, N) or not (finite(M) and finite(Y0)):
+        c.probs.append(("prop", "wna-motion", "%s: result %dx%d / not finite" % (what, mr, mc)))
+        return
+    S, cond, order = recover_factor(Y0, Z0, spec_Q(d, m["T"], m["q"]))
+    if S is None:
+        return
+    Z = rearr(Z, order)
+    F, X = spec_F(d, m["T"]), fmat(m["X"])
+    for j in range(N):
+        for i in range(n):
+            ex = sum(F[i][k] * X[k][j] for k in range(n)) + sum(S[i][k] * Fraction(Z[k][j]) for k in range(n))
+            mag = sum(abs(float(F[i][k] * X[k][j])) for k in range(n)) + rowmag(S, i) * colmax(Z, j)
+            if m["exo"]:
+                ex += sum(Fraction(m["G"][i][k]) * X[k][j] for k in range(n)) + Fraction(m["g"][i])
+                mag += sum(abs(m["G"][i][k] * float(X[k][j])) for k in range(n)) + abs(m["g"][i])
+            tol = 256 * n * EPS * cond * (mag + 1e-300)
+            if abs(float(Fraction(M[i][j]) - ex)) > tol:
+                c.probs.append(("prop", "wna-motion", "%s: state %d component %d is %.17g, F x%s + S z = %.17g" % (what, j, i, M[i][j], " + u" if m["exo"] else "", float(ex))))
+                return
+    # the model is a function of its inputs: the plain branch of addMotion on the same inputs
+    toks = ["wna_motion", str(d), hexd(m["T"]), hexd(m["q"]), "0", str(m["exo"]), "0"] + cm(round_mat(S))
+    if m["exo"]:
+        toks += cm(m["G"]) + hx(m["g"])
+    draws = [Z[i][j] for j in range(N) for i in range(n)]
+    toks += ["1", str(N)] + cm(m["X"]) + cm(m["X"]) + [str(len(draws))] + hx(draws)
+    c.dline = " ".join(toks)
+    c.st = {"M": M, "S": S, "cond": cond, "Z": Z}
+
+
+def cmp_motion_x(c, stats):
+    if not c.st:
+        return
+    m = c.meta
+    n, N = 2 * m["d"], m["N"]
+    rd = Reader(c.dout)
+    rd.expect("ok")
+    Mm = rd.mat(n, N, frac)
+    scaleX = max([abs(x) for row in m["X"] for x in row] + [1.0])
+    for i in range(n):
+        for j in range(N):
+            mag = (2 + abs(m["T"])) * scaleX * (3 if m["G"] else 1) * 4 + rowmag(c.st["S"], i) * colmax(c.st["Z"], j)
+            if abs(float(Fraction(c.st["M"][i][j]) - Mm[i][j])) > 512 * n * EPS * c.st["cond"] * mag:
+                c.probs.append(("corr", "motion", "model addMotion and implementation differ (%s)" % m["mode"]))
+                return
+
+
 # ------------------------------------------------------------------ orchestration
 
 SECTIONS = [
@@ -1468,6 +1785,10 @@ SECTIONS = [
     ("sim", gen_sim, post_sim, cmp_sim, ("sim",)),
     ("sensor", gen_sensor, post_sensor, cmp_sensor, ("sensor",)),
     ("grid", gen_grid, post_grid, cmp_grid, ("grid",)),
+    ("plumb", gen_plumb, post_plumb, cmp_plumb, ("wna_plumb",)),
+    ("move", gen_move, post_move, cmp_move, ("wna_move",)),
+    ("lti_move", gen_ltimove, post_ltimove, cmp_none, ("lti_move",)),
+    ("motion_x", gen_motion_x, post_motion_x, cmp_motion_x, ("wna_motion_x",)),
 ]
 BY_OP = {op: s for s in SECTIONS for op in s[4]}
 
@@ -1521,6 +1842,7 @@ def replay_case(path):
 
 def run(ctx):
     FILL["cm"] = FILL["rm"] = 0
+    CANDIDATES.clear()
     ctx.proof_stage()
     binary = vlib.build_harness("h_models")
     stats = {}
@@ -1544,7 +1866,15 @@ def run(ctx):
     # stage 2b: the model, on the same inputs plus the draws / square-root factor the implementation used
     todo = [c for c in cases if c.dline]
     shape_lines = sorted({ln for c in cases for ln in c.st.get("shape_lines", [])}) if cases else []
-    dout = vlib.run_driver([c.dline for c in todo] + shape_lines)
+    dcases = [c for c in cases if c.st.get("descr_line")]
+    dout = vlib.run_driver([c.dline for c in todo] + shape_lines + [c.st["descr_line"] for c in dcases])
+    for c, d in zip(dcases, dout[len(todo) + len(shape_lines):]):
+        t = d.split()
+        idd, mdd = c.st["descr"]
+        if not (t and t[0] == "ok" and tuple(int(x) for x in t[1:7]) == idd and tuple(int(x) for x in t[7:11]) == (mdd[0], mdd[1], mdd[2], mdd[4])):
+            c.probs.append(("corr", "sensor-description", "model descriptions %s, implementation %s %s" % (d, idd, mdd)))
+        elif t[11] != "same":
+            c.probs.append(("corr", "model-vs-spec", "the model's arg-max description differs from its index-list form: %s" % c.st["descr_line"]))
     for c, d in zip(todo, dout):
         c.dout = d
         try:
@@ -1555,10 +1885,33 @@ def run(ctx):
             c.probs.append(("corr", "driver-output-malformed", "%s: unreadable model output (%s): %s" % (c.op, e, d[:80])))
     # the model's sample-shape function (the bookkeeping that was defective) against the implementation's dimensions
     shape_bad = []
-    for ln, d in zip(shape_lines, dout[len(todo):]):
+    for ln, d in zip(shape_lines, dout[len(todo):len(todo) + len(shape_lines)]):
         t, o = ln.split(), d.split()
         if not (o and o[0] == "ok" and int(o[1]) == 2 * int(t[1]) and int(o[2]) == int(t[2]) and int(o[3]) == 2 * int(t[1]) * int(t[2])):
             shape_bad.append((ln, d))
+    # stage 2c: the same inputs through a plain optimised build (no sanitizer, NDEBUG): address reuse and
+    # optimisation-dependent paths the instrumented build hides.  Only inputs on which the instrumented run was
+    # clean are replayed (with NDEBUG an out-of-range access would be silent undefined behaviour).
+    opt_n = 0
+    if not ctx.replay:
+        import copy
+        vlib.LIB_FLAGS.setdefault("opt", "-O2 -g0 -DNDEBUG -DBFL_VERIF")
+        obin = vlib.build_harness("h_models", kind="opt")
+        sub = [c for c in cases if not c.probs and c.op not in ("lti_state", "lti_meas", "linmodel") and not (c.hout or "").startswith("crash")]
+        if ctx.quick():
+            sub = sub[::2]
+        oout, ologs = vlib.run_harness(obin, [c.line for c in sub], env={"ASAN_OPTIONS": ""})
+        opt_n = len(sub)
+        for c, h in zip(sub, oout):
+            c2 = Case(c.op, c.line, copy.deepcopy(c.meta))
+            c2.hout = h
+            try:
+                BY_OP[c.op][2](c2, {})
+            except (ValueError, IndexError, OverflowError) as e:
+                c2.probs.append(("prop", "impl-output-not-finite", "%s: unreadable output of the optimised build (%s): %s" % (c.op, e, h[:80])))
+            for kind, k, w in c2.probs:
+                if kind == "prop":
+                    c.probs.append(("prop", k, "[plain -O2 build, no sanitizer] " + w))
     # decision
     prop_bad = [(c, k, w) for c in cases for (kind, k, w) in c.probs if kind == "prop"]
     corr_bad = [(c, k, w) for c in cases for (kind, k, w) in c.probs if kind == "corr"]
@@ -1610,7 +1963,7 @@ def run(ctx):
         "samples": [cases[0].line[:300], cases[len(cases) // 2].line[:300], cases[-1].line[:300]],
         "section_sizes": per_section, "case_histogram": hist, "model_branches_hit": dict(br, **{k: v for k, v in stats.items() if isinstance(v, dict)}),
         "numeric": {k: v for k, v in stats.items() if not isinstance(v, dict)},
-        "traces_validated_against_impl": len(todo),
+        "traces_validated_against_impl": len(todo), "cases_repeated_on_plain_optimised_build": opt_n,
         "exhaustive": not ctx.replay,
         "exhaustive_bound": "every pair of shapes (r1 x c1, r2 x c2) with r, c in 0..%d for LTIStateModel, LTIMeasurementModel and LinearModel "
                             "(accept/reject compared with lti_ctor_iff / linear_H_selects for each), every Dim, and the finite sub-spaces listed under "
@@ -1622,9 +1975,10 @@ def run(ctx):
                        "grid_sizes": "nx, ny in 2..6", "sample_counts": "0..4 for every Dim"},
         "model_vs_impl_disagreements": len(corr_bad) + len(shape_bad), "property_failures_on_impl": len(prop_bad),
         "sanitizer_crashes": len(logs), "unpromised_differences_noted": notes,
-        "draw_fill_order_observed": dict(FILL),
+        "draw_fill_order_observed": dict(FILL), "candidate_findings": dict(CANDIDATES),
     })
     ctx.notes += ["%s (x%d)" % (k, v) for k, v in sorted(notes.items())][:10]
+    ctx.notes += ["candidate finding %s: %s (x%d)" % (k, v["what"], v["count"]) for k, v in CANDIDATES.items()]
     ctx.assumptions += [
         "floating point: F compared exactly, Q within 16 eps relative, samples/motion within 256 n eps cond(probe draws) scaled entry-wise, "
         "log-density within 1e-12 cond(Q) (1 + quad) + 1e-11 (1 + |log p|), grid positions within 16 eps (|inf| + |sup|)",
